@@ -11,11 +11,15 @@ TOL = ("S-line tolerance: 1e-9 * (1 + |min| + |max| of the surrounding table val
        "result by >= 1e-3 relative")
 RULE_G = ("generic interpolators: deterministic sweeps (every grid value / midpoint / boundary / outside for 2..9 points in "
           "1-D and 2-D, constructor rejections, single-point axes, NaN table / query) then random non-uniform dyadic grids "
-          "(dims 1-4, 2-9 points per axis, dyadic / arbitrary / multi-affine tables), 6 queries per case drawn from 12 kinds; "
+          "(dims 1-4, 2-9 points per axis; dyadic / arbitrary / multi-affine / small-integer / locally constant tables, and "
+          "square-cell grids with a + b(x0 - x1) or the saddle x0 + x1 - 2 x0 x1, i.e. non-flat cells whose opposite corners "
+          "coincide), 6 queries per case drawn from 14 kinds (incl. on a grid line and one ulp to either side of it); "
           "Interp1D/2D/3D and InterpND built on the same data, Interpolator::interpolate and the direct .linear() compared "
           "bit for bit with the FN model (M line); the S line is the QN checker of Model/InterpRun.v (proved sound in "
           "Props/C14.v section 7) applied to the implementation's outputs: in-range => Ok and within [min,max] of the "
-          "surrounding values, exact on grid points, out of range / wrong length => Err, multi-affine table => equal to "
+          "surrounding values, exact on grid points, out of range / wrong length => Err, EVERY in-range value within "
+          "the band of the exact rational multilinear interpolant of the same table and point (decides multilinear "
+          "exactness, border agreement / continuity and mutual agreement on every case), multi-affine table => equal to "
           "the function, ND = specialised; non-trivial = at least one query that is not a plain interior point "
           "(grid line, corner, boundary, outside, wrong length, 1 ulp from the boundary). " + TOL)
 RULE_S = ("speed/grade model: the four bundled vehicle models through InterpolationSpeedGradeModel::new or "
@@ -24,7 +28,8 @@ RULE_S = ("speed/grade model: the four bundled vehicle models through Interpolat
           "the model's predictor is the underlying random forest sampled by the harness exactly as `new` samples it; "
           "bit-exact with the FN model (M line); S = QN checker: the axes have `bins` increasing points from the lower to "
           "the upper bound, never Err, value at the clamped point between the 4 surrounding underlying values, equal to the "
-          "underlying value on grid points and grid lines; non-trivial = a query that is not a plain interior point")
+          "underlying value on grid points and grid lines, and within the band of the exact rational bilinear interpolant "
+          "of the sampled table at the clamped point; non-trivial = a query that is not a plain interior point")
 
 
 def classify(case, i, m, s):
